@@ -291,7 +291,12 @@ func runC10(m *Sim) {
 				b = append(b, make([]byte, l-(len(genuine)-2))...)
 			}
 			expectReject("prefix", fmt.Sprintf("length-prefix=%d", l), b)
-		case 4: // re-signed by another key
+		case 4: // re-signed by another key, or a correctly signed reply that is too short
+			if m.C.Chance("signed-short", 1, 4) {
+				l := []int{0, 8, 72, 136, 500, 575, 576, 639}[m.C.Int("slen", 8)]
+				expectReject("resign", fmt.Sprintf("correctly-signed-but-short(%d)", l), SealSyncReply(make([]byte, l), tnow, n.Key))
+				continue
+			}
 			k := []*KeyPair{gca, dev.Key, other.Key, n.Temp, newGCA, Key("rogue")}[m.C.Int("signer", 6)]
 			expectReject("resign", "re-signed-by-"+k.Role, SealSyncReply(body, tnow, k))
 		case 5: // timestamp shifts, correctly signed by the server key
